@@ -208,3 +208,21 @@ Proof.
   intros n rl ru empty Hn. unfold theta_estimate, theta_lower_of, theta_upper_of.
   rewrite theta_frac_max, N.ltb_irrefl. repeat split. apply fdiv_one. exact Hn.
 Qed.
+
+(* the HLL family's own transcription of get_rel_err (Model/HllEst.v, in-order case, used by C02's bit-for-bit
+   correspondence) and the one of Model/Bounds.v agree on the whole domain: lg_k 4..21, both bounds, 1..3 standard deviations *)
+From DS Require Model.HllEst.
+Definition relerr_agree (lgk : N) : bool :=
+  forallb (fun up => forallb (fun s =>
+     Z.eqb (bits_of_float (HllEst.get_rel_err_hip lgk up s)) (bits_of_float (hll_rel_err lgk up false s))) [1; 2; 3])
+     [false; true].
+Lemma relerr_agree_sweep : forallb relerr_agree (Nrange 4 18) = true.
+Proof. vm_compute. reflexivity. Qed.
+Theorem hll_rel_err_models_agree : forall lgk up s, 4 <= lgk <= 21 -> 1 <= s <= 3 ->
+  bits_of_float (HllEst.get_rel_err_hip lgk up s) = bits_of_float (hll_rel_err lgk up false s).
+Proof.
+  intros lgk up s H Hs. pose proof relerr_agree_sweep as S. rewrite forallb_forall in S.
+  specialize (S lgk (Nrange_In 4 18 lgk ltac:(lia))). unfold relerr_agree in S. rewrite forallb_forall in S.
+  assert (Hu : In up [false; true]) by (destruct up; cbn; auto). specialize (S up Hu). rewrite forallb_forall in S.
+  assert (Hin : In s [1; 2; 3]) by (cbn; lia). specialize (S s Hin). now apply Z.eqb_eq.
+Qed.
